@@ -82,7 +82,13 @@ pub fn check_c01(input: &str, stats: &mut Stats, rng: &mut Rng) {
         let r = catch(|| run_backend(input, b, bound, cap));
         verif::clear_sink();
         match r {
-            Err(p) => c01_panic(stats, input, b.name(), &p),
+            Err(p) => {
+                c01_panic(stats, input, b.name(), &p);
+                if p.contains(WORK_BOUND_MSG) {
+                    stats.eval(Some(input.as_bytes()));
+                    return;
+                }
+            }
             Ok(run) => {
                 stats.cnt("parses", 1);
                 if n > 0 {
@@ -96,6 +102,10 @@ pub fn check_c01(input: &str, stats: &mut Stats, rng: &mut Rng) {
                         format!("more than 8*(n+1) events without StreamEnd or error via {}", b.name()),
                         case_json(input, vec![("config", J::s(b.name()))]),
                     );
+                    // the remaining configurations have no cap of their own: do not run them
+                    verif::clear_sink();
+                    stats.eval(Some(input.as_bytes()));
+                    return;
                 }
                 for br in &run.breaches {
                     let kind = br.split(|c: char| c == '(' || c == ' ').next().unwrap_or("?").to_string();
@@ -142,9 +152,9 @@ pub fn check_c01(input: &str, stats: &mut Stats, rng: &mut Rng) {
         let name = if which == 0 { "load-multi/StrInput" } else { "load-multi/BufferedInput" };
         let r = catch(|| {
             if which == 0 {
-                push_all(&mut Parser::new(StrInput::new(input)))
+                push_all_capped(&mut Parser::new(StrInput::new(input)), cap + 2)
             } else {
-                push_all(&mut Parser::new(BufferedInput::new(input.chars())))
+                push_all_capped(&mut Parser::new(BufferedInput::new(input.chars())), cap + 2)
             }
         });
         match r {
@@ -159,7 +169,7 @@ pub fn check_c01(input: &str, stats: &mut Stats, rng: &mut Rng) {
         let name = if which == 0 { "load-single/StrInput" } else { "load-single/BufferedInput" };
         let r = catch(|| {
             let mut calls = 0usize;
-            let mut rec = Recorder::default();
+            let mut rec = Recorder { events: vec![], cap: cap + 8 };
             macro_rules! drive {
                 ($p:expr) => {{
                     let mut p = $p;
@@ -389,7 +399,7 @@ pub fn check_c10(input: &str, stats: &mut Stats) {
     let huge = u64::MAX / 2;
     let mut reference: Option<Parsed> = None;
     for b in ALL_BACKENDS {
-        let r = catch(|| run_backend(input, b, huge, usize::MAX));
+        let r = catch(|| run_backend(input, b, huge, safety_cap(input)));
         let run = match r {
             Ok(r) => r,
             Err(p) => {
